@@ -459,6 +459,10 @@ class LibMixin:
     def call_libclass(self, c: LibClass, args, kwargs, run, node):
         n = c.name
         L = LibClass.get
+        if n in ("UnicodeDecodeError", "UnicodeEncodeError") and (len(args) != 5 or kwargs):
+            # (encoding, object, start, end, reason): the builtin exceptions with a fixed constructor signature
+            run.emit("raise-site", "TypeError", self.site(node), f"{n}() takes exactly 5 arguments")
+            self.throw("TypeError", f"function takes exactly 5 arguments ({len(args)} given)", node)
         if any(not is_concrete(a) for a in list(args) + list(kwargs.values())):
             # deep check: a tuple/list holding a symbol must never reach a native constructor
             # (a native TypeError on an abstract value is an analysis artefact, not behaviour)
